@@ -1,8 +1,10 @@
 package main
 
 import (
+	"fmt"
 	"math"
 	"strings"
+	"time"
 
 	"verifharness/lib"
 )
@@ -658,6 +660,12 @@ func (r *runner) runAll() {
 				r.radixOne(radixCase{Kind: "radix", N: n, D: "%" + fl + string(l), Radix: radixOf(byte(l))})
 			}
 		}
+	}
+	// F6b: radix round trips of zero filled, precision filled and space padded renderings, both dispatches
+	t0 := time.Now()
+	r.radixPadFamily(thorough)
+	if verbose {
+		fmt.Printf("radix-pad family: %v\n", time.Since(t0))
 	}
 	r.res.Exhaustive = false
 }
